@@ -37,7 +37,8 @@ Desc(c, d, q, n, f, cut, ks, via) == DescP(c, d, q, n, f, cut, ks, via, "high")
 GoodSet == {Desc(c, d, q, n, "none", 0, ks, via) : c \in Ciphers, d \in DsA3, q \in BOOLEAN, n \in Lens, ks \in {"direct", "handshake"}, via \in {"wire", "api", "proxy"}}
            \cup {DescP(c, d, q, n, "none", 0, ks, "wire", "low") : c \in Ciphers, d \in DsA3, q \in BOOLEAN, n \in Lens, ks \in {"direct", "handshake"}}
 \* B: integrity and key faults
-FaultSet == {Desc(c, d, q, n, f, 0, ks, "wire") : c \in Ciphers, d \in DsA3, q \in BOOLEAN, n \in Lens, ks \in {"direct", "handshake"},
+\*    (small packet numbers: a slip in the handling of the upper IV octets must not make the integrity faults vacuous)
+FaultSet == {DescP(c, d, q, n, f, 0, ks, "wire", "low") : c \in Ciphers, d \in DsA3, q \in BOOLEAN, n \in Lens, ks \in {"direct", "handshake"},
                                                    f \in {"flip_ciphertext", "flip_icv_or_mic", "wrong_key", "no_key"}}
 AadSet == {Desc("CCMP", d, q, n, "flip_aad", cut, "direct", "wire") : d \in {<<"to", "third">>, <<"from", "third">>, <<"wds", "relay">>, <<"wds", "self">>},
                                                    q \in BOOLEAN, n \in {16, 17}, cut \in 0..3}
